@@ -66,7 +66,10 @@ def _validate_chunk(args):
     started = time.time()
     status, out = run_tlc(module, cfg, env=env, workers=1)
     if status != 0 or not os.path.exists(outpath):
-        raise MachineryError("TLC failed on %s (status %s):\n%s" % (path, status, out[-3000:]))
+        lines = [l for l in out.splitlines()
+                 if not l.startswith(("Parsing file", "Semantic processing", "Linting of"))]
+        raise MachineryError("TLC failed on %s (status %s):\n%s"
+                             % (path, status, "\n".join(lines)[-3000:]))
     with open(outpath) as handle:
         verdicts = json.load(handle)
     return verdicts, time.time() - started
